@@ -28,10 +28,23 @@ sys.path.insert(0, REPO)
 sys.dont_write_bytecode = True
 
 UNTRANSLATABLE = []
+UNTRANS_TAGGED = []
 
 
-def untrans(what):
-    UNTRANSLATABLE.append(what)
+def untrans(what, tag=None):
+    """tag: which part of the model the item belongs to (a property that does not depend on that part is
+    not affected): codec | frag | bufs | enc | streamfilter | armor | cs | tag | track | talker"""
+    if tag is None:
+        tag = 'codec'
+        for key, t in (('MAX_FRAG_CNT', 'frag'), ('MAX_PAYLOAD_LEN', 'frag'), ('BUF_SIZE', 'bufs'),
+                       ('ENCODE_MAX_LEN', 'enc'), ('STREAM_MIN_LEN', 'streamfilter'), ('SHOULD_PARSE', 'streamfilter'),
+                       ('PAYLOAD_ARMOR', 'armor'), ('SIX_BIT_ENCODING', 'armor'), ('comm-state', 'cs'),
+                       ('radio types', 'cs'), ('FIELD_CODES', 'tag'), ('AISTrack', 'track'), ('TalkerID', 'talker')):
+            if key in what:
+                tag = t
+                break
+    UNTRANSLATABLE.append('[%s] %s' % (tag, what))
+    UNTRANS_TAGGED.append((tag, what))
 
 
 def lean_str(s):
@@ -742,8 +755,40 @@ def main():
             raise ValueError('%s: expected exactly one value, found %r' % (what, vals))
         return vals[0]
 
-    const_nat('STREAM_BUF_SIZE', lambda: single(buffer_sizes(os.path.join(REPO, 'pyais/stream.py')), 'stream buffer size'))
-    const_nat('QUEUE_BUF_SIZE', lambda: single(buffer_sizes(os.path.join(REPO, 'pyais/queue.py')), 'queue buffer size'))
+    FRAG = b'!AIVDM,2,1,4,A,55?MbV02;H;s<HtKR20EHE:0@T4@Dn2222222216L961O5Gf0NSQEp6ClRp8,0*1C'
+    SINGLE = b'!AIVDM,1,1,,A,15M67FC000G?ufbE`FepT@3n00Sa,0*5C'
+
+    def lists_in(mapping):
+        out = []
+        for v in mapping.values():
+            if isinstance(v, dict):
+                out += [len(x) for x in v.values() if isinstance(x, list)]
+        return out
+
+    def observed_stream_buffer():
+        """length of the reassembly list the stream loop allocates for a fragment `1 of 2` (looked up in the
+        suspended generator's local variables)"""
+        it = iter(S.IterMessages([FRAG, SINGLE]))
+        next(it)
+        frame = it.gi_frame
+        return single(lists_in(frame.f_locals), 'observed stream buffer')
+
+    def observed_queue_buffer():
+        import pyais.queue as Qm
+        q = Qm.NMEAQueue()
+        q.put_line(FRAG)
+        return single(lists_in(vars(q)), 'observed queue buffer')
+
+    def buffer_size(path, observe, what):
+        vals = buffer_sizes(path)
+        if len(set(vals)) == 1:
+            return vals[0]
+        v = observe()          # the source is not of the recognised shape: look at the running code
+        PROBED.append('%s (max(count, N) not found in %s)' % (what, os.path.basename(path)))
+        return v
+
+    const_nat('STREAM_BUF_SIZE', lambda: buffer_size(os.path.join(REPO, 'pyais/stream.py'), observed_stream_buffer, 'stream buffer size'))
+    const_nat('QUEUE_BUF_SIZE', lambda: buffer_size(os.path.join(REPO, 'pyais/queue.py'), observed_queue_buffer, 'queue buffer size'))
 
     def assign_in_func(path, func, var):
         tree = ast.parse(open(path).read())
@@ -851,7 +896,8 @@ def main():
 
     C.append('')
     C.append('/-- constructs of the source the translator could not translate faithfully -/')
-    C.append('def untranslatable : List String := %s' % lean_list([lean_str(u) for u in UNTRANSLATABLE]))
+    C.append('def untranslatable : List (String × String) := %s'
+             % lean_list(['(%s, %s)' % (lean_str(t), lean_str(u)) for t, u in UNTRANS_TAGGED]))
     C.append('')
     C.append('end Generated')
     consts_src = '\n'.join(C) + '\n'
